@@ -425,6 +425,38 @@ def r8(ctx, r):
                         r.fail(f, e, "observer slot overwritten", "%s overwrites an element of a session's observer list (`%s`): registration order is lost" % (short(f.name), show(x)[:70]))
     if nobs < 2:
         raise AnalysisBroken("observer list mutations: %d found" % nobs)
+    # user data: the registration API replaces — what the close handler cleans up is the LAST registration ("registered and
+    # unregistered at any point"): the store is an overwriting form on every path, with both parameters
+    sd = ctx.fb().func("iora::network::Transport::setSessionData", file_suffix=c03.FILE)
+    r.instance()
+    stores, weak = [], []
+    for e in sd.stmts():
+        n = e.node
+        if n.get("k") == "opcall" and n.get("op") == "=" and any(y.get("k") == "member" and y["n"] == IMPL + "::sessionData" for y in walk(n["args"][0])):
+            lhs = n["args"][0]
+            if lhs.get("k") == "opcall" and lhs.get("op") == "[]" or (lhs.get("k") == "member" and "->second" in show(lhs)) or "second" in show(lhs):
+                stores.append(e)
+        if n.get("k") == "mcall" and field_of(n.get("obj")) == IMPL + "::sessionData":
+            m = last(n["callee"])
+            if m == "insert_or_assign":
+                stores.append(e)
+            elif m in ("emplace", "insert", "try_emplace", "emplace_hint"):
+                weak.append(e)
+    if not stores and not weak:
+        raise AnalysisBroken("setSessionData: no store into sessionData found")
+    # a non-overwriting insert is fine only behind an erase of the same key on every path
+    for e in weak:
+        er = [x for x in common.member_calls_on(sd, IMPL + "::sessionData", ("erase",)) if elem_dominates(sd, x, e)]
+        r.expect(bool(er), sd, e, "registration does not replace", "setSessionData stores with %s(), which leaves an existing entry untouched: a second registration (replacement, or un-registration with nullptr) "
+                 "is ignored and the close handler cleans up the stale pointer, never the current one" % last(e.node["callee"]), okdesc="insert behind an erase of the key")
+    pnames = {p_["n"] for p_ in sd.params[1:]}
+    for e in stores:
+        used = {y["n"] for y in walk(e.node) if y.get("k") == "var" and y.get("parm") is not None}
+        r.expect(pnames <= used, sd, e, "registration drops a parameter", "setSessionData stores %s but not %s" % (sorted(used & pnames), sorted(pnames - used)), okdesc="sessionData[sid] = {data, cleanup}")
+    if stores and not weak:
+        exits_without = search(sd, ("entry",), "exit", stop=lambda x: x in stores, eh=False)
+        r.expect(exits_without is None, sd, stores[0], "registration skipped on a path", "setSessionData can return without storing (%s)" % (witness_str(sd, exits_without) if exits_without else ""),
+                 okdesc="every path of setSessionData stores")
     # observers iterate the copy front to back
     r.instance()
     begins = [e for e in oc.stmts() if e.node.get("k") == "mcall" and last(e.node.get("callee", "")) in ("rbegin", "crbegin") and "sessionObservers" in show(e.node)]
